@@ -1027,7 +1027,7 @@ func (cp *comp) selectRead(e Expr) *cx {
 			if id, ok := inner.(*Ident); ok {
 				cp.errf(ClassSyntax, e.exprLine(), "part-select of memory '%s' needs a word index first", id.Name)
 			} else {
-				cp.e.unsupported(cp.sc, e.exprLine(), "select on "+ExprString(inner))
+				cp.errf(ClassSyntax, e.exprLine(), "%s: select of a select that is not a memory word", ExprString(e))
 			}
 		}
 		return cp.zero()
